@@ -144,7 +144,7 @@ pub fn check(c: &Case, st: &mut Stats) -> CheckResult {
 
 pub fn run(ctx: &Ctx, rep: &mut Report) {
     rep.assume("signatures are produced by the library itself (try_*_with_rng with a replayed RNG) and judged by the library's verifier: a formatting defect shared by both sides shows up as an accepted alternative; C03 independently compares the bytes with the reference");
-    run_generated(ctx, rep, "generated", ctx.n(900, 15_000), strategy, check);
+    run_generated(ctx, rep, "generated", ctx.n(3000, 40_000), strategy, check);
 }
 
 pub fn replay(_ctx: &Ctx, sub: &str, case: &Value) -> Option<CheckResult> {
